@@ -325,7 +325,7 @@ def run(s):
     # the quantities of this property are DELIVERED through the writer rules (keyword -> quantity, file name, unit; a data file): C15's registry and writer-path obligations
     # are registered here as well
     from props import C15
-    C15.run(core.SubSession(s, lambda n: n.replace("C15.", "C07.delivery."), lambda n: n in ("C15.registry", "C15.writer_paths")))
+    core.SubSession(s, lambda n: n.replace("C15.", "C07.delivery."), lambda n: n in ("C15.registry", "C15.writer_paths")).run(C15)
     s.min_obligations = 14
 
 
